@@ -137,8 +137,9 @@ def mon_c01_c10(sc, controller):
 
 # ------------------------------------------------------------------ C02 / C07 / C09
 
-def demanded_and_sources(sc, controller):
-    """For every simulator the set of demanded tiered times with the steps that demanded them."""
+def demanded_and_sources(sc, controller, strict=False):
+    """For every simulator the set of demanded tiered times with the steps that demanded them.
+    strict: only steps that were themselves demanded pass demands on (the consequences of a spurious step do not count)."""
     n = len(sc["sims"])
     until = sc["until"]
     dem = {i: {} for i in range(n)}          # time -> set of sources; a source is ('init',) or (sim, step)
@@ -150,6 +151,8 @@ def demanded_and_sources(sc, controller):
             dem[i].setdefault((0,) * depth, set()).add(("init",))
     trig = [c for c in sc["connects"] if is_trigger(sc["sims"][c["dst"]]["type"], c["dattr"])]
     for e in controller.full_trace:
+        if strict and e[0] in ("stepped", "got") and tuple(e[2]) not in dem[sid_i(e[1])]:
+            continue
         if e[0] == "stepped":
             i, t, nxt = sid_i(e[1]), tuple(e[2]), e[3]
             if isinstance(nxt, int) and not isinstance(nxt, bool) and t[0] < nxt < until:
@@ -231,9 +234,9 @@ def mon_c09(sc, controller, outcome):
             vio.append({"law": "a sub-step with index >= max_loop_iterations was executed", "sim": sid_i(e[1]), "t": tuple(e[2]), "max_loop": ml})
     if outcome.startswith("failed SimulationError loop"):
         # the guard may only fire when a demanded sub-step index has reached the bound
-        dem = demanded_and_sources(sc, controller)
+        dem = demanded_and_sources(sc, controller, strict=True)
         if not any(any(k >= ml for k in t[1:]) for i in dem for t in dem[i]):
-            vio.append({"law": "loop error although no demanded sub-step reached the bound", "max_loop": ml})
+            vio.append({"law": "loop error although no demanded sub-step reached the bound", "max_loop": ml, "outcome": outcome})
     return vio
 
 
@@ -348,9 +351,16 @@ def c03_conn_class(sc, dst, key, nonmono=None):
     if sc.get("sparse_persistent") and any(is_persistent(sims[c["src"]]["type"], c["sattr"]) for c in conns):
         return "C03-sparse-persistent"      # not a finding: the simulator breaks its contract; nothing is claimed for this key
     if sc["cache"]:
+        # D12: initial data lives in the SOURCE's cache.  It is overwritten by the real output of that time when the
+        # connection is not shifted (weak), and it is visible to / ordered against every OTHER connection of the source that
+        # carries initial data.  A shifted connection that is the only one with initial data out of its source is clean.
         for c in conns:
-            if is_persistent(sims[c["src"]]["type"], c["sattr"]) and any(
-                    c2["init"] and c2["src"] == c["src"] and is_persistent(sims[c2["src"]]["type"], c2["sattr"]) for c2 in sc["connects"]):
+            if not is_persistent(sims[c["src"]]["type"], c["sattr"]):
+                continue
+            if c["init"] and not c["ts"]:
+                return "C03-cache-initial-data"
+            if any(c2 is not c and c2["init"] and c2["src"] == c["src"] and is_persistent(sims[c2["src"]]["type"], c2["sattr"])
+                   for c2 in sc["connects"]):
                 return "C03-cache-initial-data"
     if any(s["group"] for s in sims) and any(c["weak"] for c in sc["connects"]):
         return "C03-subtier-blind"
